@@ -274,6 +274,10 @@ func (d *detAnalyzer) orderEval(sp *sortSpec, fn *ssa.Function, rel map[string]i
 		case symS:
 			return symV(symS), true
 		}
+		// a field of an element that is a struct
+		if ca := canon(addr.s); strings.HasPrefix(ca, symA+".") || strings.HasPrefix(ca, symB+".") {
+			return symV(ca), true
+		}
 		return sv{}, false
 	}
 	ev.call = func(call ssa.CallInstruction, args []sv) (sv, bool) {
@@ -315,6 +319,9 @@ func (d *detAnalyzer) orderEval(sp *sortSpec, fn *ssa.Function, rel map[string]i
 			}
 			return sv{}, true
 		}
+		if r, ok := d.keyCall(ev, call, args, canon); ok {
+			return r, true
+		}
 		return sv{}, false
 	}
 	for _, fv := range fn.FreeVars {
@@ -323,6 +330,7 @@ func (d *detAnalyzer) orderEval(sp *sortSpec, fn *ssa.Function, rel map[string]i
 			ev.mem["&"+symS] = symV(symS)
 		} else {
 			ev.bind[fv] = sv{k: svAddr, s: "fv:" + fv.Name()}
+			d.noteLocalFunc(ev, fn, fv, 0)
 		}
 	}
 	var args []sv
@@ -343,6 +351,148 @@ func (d *detAnalyzer) orderEval(sp *sortSpec, fn *ssa.Function, rel map[string]i
 	}
 	res = ev.runFunc(fn, args)
 	return res, ev, grew
+}
+
+// noteLocalFunc: a variable captured by the comparison that holds a local function which is
+// assigned once (`key := func(x T) K {…}` next to the sort) is that function: a call through the
+// variable is a call of it.  The variables that function captures in turn are named like the
+// captured variables of the comparison, so the same variable is the same term on both ways.
+func (d *detAnalyzer) noteLocalFunc(ev *ssaEval, fn *ssa.Function, fv *ssa.FreeVar, depth int) {
+	if _, isSig := fv.Type().(*types.Pointer).Elem().Underlying().(*types.Signature); !isSig || depth > 2 {
+		return
+	}
+	mc, ok := lockBase(&ssa.UnOp{Op: token.MUL, X: fv}).(*ssa.MakeClosure)
+	var target *ssa.Function
+	if ok {
+		target, _ = mc.Fn.(*ssa.Function)
+	} else if f, isFn := lockBase(&ssa.UnOp{Op: token.MUL, X: fv}).(*ssa.Function); isFn {
+		target = f
+	}
+	if target == nil {
+		return
+	}
+	cl := closureB{fn: target}
+	for _, tfv := range target.FreeVars {
+		cl.free = append(cl.free, sv{k: svAddr, s: "fv:" + tfv.Name()})
+		d.noteLocalFunc(ev, target, tfv, depth+1)
+	}
+	ev.ext().closures["*fv:"+fv.Name()] = cl
+}
+
+// keyCall: a call inside the comparison of a function of the module (or of a local function
+// value) whose arguments involve one of the two elements only computes a *key* of that element.
+// The call is evaluated in place; if its own branches depend on more than the table fixes (the
+// key function looks its argument up and tests whether it was found, say) and the function has no
+// effects, the call is a term `f(element)`: whatever a function without effects computes from one
+// element is a value that stays the same during the sort, and the table ranges over the relations
+// of the two keys like over those of any other pair of terms.
+func (d *detAnalyzer) keyCall(ev *ssaEval, call ssa.CallInstruction, args []sv, canon func(string) string) (sv, bool) {
+	x, isCall := call.(*ssa.Call)
+	if !isCall || x.Call.IsInvoke() || ev.fr == nil {
+		return sv{}, false
+	}
+	fn, fvals := ev.calleeOf(ev.fr, x)
+	if fn == nil || len(fn.Blocks) == 0 || fn.Signature.Results().Len() != 1 {
+		return sv{}, false
+	}
+	if !d.c.inModule(fn) && !(d.control && fn.Pkg != nil && fn.Pkg.Pkg == d.pkg.Types) && !(d.control && fn.Parent() != nil) {
+		return sv{}, false
+	}
+	fval := symV("func:" + fn.String())
+	if x.Call.StaticCallee() == nil {
+		fval = ev.val(ev.fr, x.Call.Value)
+	} else if _, isMC := x.Call.Value.(*ssa.MakeClosure); isMC {
+		return sv{}, false
+	}
+	hasA, hasB := false, false
+	for _, a := range args {
+		if !a.known() {
+			return sv{}, false
+		}
+		as := canon(a.String())
+		if strings.Contains(as, symI) || strings.Contains(as, symJ) {
+			return sv{}, false
+		}
+		hasA = hasA || strings.Contains(as, symA)
+		hasB = hasB || strings.Contains(as, symB)
+	}
+	if hasA == hasB || ev.depth >= 3 {
+		return sv{}, false
+	}
+	// in place
+	nEff, steps := len(ev.effects), ev.steps
+	sub := &frame{vals: map[ssa.Value]sv{}}
+	for i, fv := range fn.FreeVars {
+		if i < len(fvals) {
+			sub.vals[fv] = fvals[i]
+		}
+	}
+	for i, p := range fn.Params {
+		if i < len(args) {
+			sub.vals[p] = args[i]
+		}
+	}
+	ev.depth++
+	_, _, ret := ev.runBlocks(sub, fn.Blocks[0], nil, nil)
+	ev.depth--
+	if ev.why == "" && len(ret) == 1 && ret[0].known() {
+		return ret[0], true
+	}
+	if ev.why == "" || ev.why == "panic" {
+		return sv{}, false
+	}
+	// not decidable from the table: a key, if the function has no effects
+	pure := false
+	if d.control {
+		pure = effectFreeBody(fn, 0)
+	} else {
+		pure = d.c.effects().of(fn).pure()
+	}
+	if !pure {
+		return sv{}, false
+	}
+	ev.why, ev.effects, ev.steps = "", ev.effects[:nEff], steps
+	cargs := []sv{fval}
+	for _, a := range args {
+		cargs = append(cargs, symV(canon(a.String())))
+	}
+	return term("key", cargs...), true
+}
+
+// effectFreeBody: the function stores nothing but its own locals and calls nothing but
+// builtins that only read and functions of the same kind (the control package is outside the
+// module, so the effect summaries do not cover it).
+func effectFreeBody(fn *ssa.Function, depth int) bool {
+	if depth > 3 || len(fn.Blocks) == 0 {
+		return false
+	}
+	ok := true
+	eachInstr(fn, func(ins ssa.Instruction) {
+		switch x := ins.(type) {
+		case *ssa.Store:
+			if al, isAl := x.Addr.(*ssa.Alloc); !isAl || al.Parent() != fn {
+				ok = false
+			}
+		case *ssa.MapUpdate, *ssa.Send, *ssa.Go, *ssa.Defer, *ssa.Panic:
+			ok = false
+		case *ssa.Call:
+			if b, isB := x.Call.Value.(*ssa.Builtin); isB {
+				switch b.Name() {
+				case "len", "cap", "min", "max":
+				default:
+					ok = false
+				}
+				return
+			}
+			callee := x.Call.StaticCallee()
+			if callee == nil || !effectFreeBody(callee, depth+1) {
+				if callee == nil || extSummary[calleeName(callee)] != "pure" {
+					ok = false
+				}
+			}
+		}
+	})
+	return ok
 }
 
 // pureEval: the evaluation performed no store and called nothing with effects.
@@ -382,8 +532,23 @@ func (d *detAnalyzer) pureEval(ev *ssaEval) string {
 // totalOrder decides whether the sort described by sp puts any two different elements into an
 // order that does not depend on where they stood before.
 func (d *detAnalyzer) totalOrder(sp *sortSpec) (bool, string) {
+	// the terms whose relations tell whether two elements are the same: the element itself, or —
+	// for a struct of ordered fields — each of its fields
+	elemKeys := []string{"·"}
 	if st, ok := sp.slice.Type().Underlying().(*types.Slice); ok {
-		if b, ok := st.Elem().Underlying().(*types.Basic); !ok || b.Info()&types.IsOrdered == 0 {
+		ordered := func(t types.Type) bool {
+			b, ok := t.Underlying().(*types.Basic)
+			return ok && b.Info()&types.IsOrdered != 0
+		}
+		if stt, isStruct := st.Elem().Underlying().(*types.Struct); isStruct && stt.NumFields() > 0 && sp.kind != "natural" {
+			elemKeys = nil
+			for k := 0; k < stt.NumFields(); k++ {
+				if !ordered(stt.Field(k).Type()) {
+					return false, "the elements are structs with a field that is not of an ordered basic type"
+				}
+				elemKeys = append(elemKeys, "·."+stt.Field(k).Name())
+			}
+		} else if !ordered(st.Elem()) {
 			return false, "element type is not an ordered basic type"
 		}
 	}
@@ -414,7 +579,6 @@ func (d *detAnalyzer) totalOrder(sp *sortSpec) (bool, string) {
 		}
 	}
 	var keys []string
-	elemKey := "·"
 restart:
 	for {
 		if len(keys) > 4 {
@@ -436,7 +600,13 @@ restart:
 					allEq = false
 				}
 			}
-			if r, ok := rel[elemKey]; ok && r == 0 && !allEq {
+			same := true // the two elements are the same value
+			for _, ek := range elemKeys {
+				if r, ok := rel[ek]; !ok || r != 0 {
+					same = false
+				}
+			}
+			if same && !allEq {
 				continue // equal elements have equal keys
 			}
 			ra, eva, g1 := d.orderEval(sp, sp.fn, rel, &keys)
@@ -495,16 +665,102 @@ restart:
 		}
 		break
 	}
-	hasElem := false
-	for _, k := range keys {
-		if k == elemKey {
-			hasElem = true
+	for _, ek := range elemKeys {
+		hasElem := false
+		for _, k := range keys {
+			if k == ek {
+				hasElem = true
+			}
+		}
+		if !hasElem && ek == "·" {
+			return false, "the comparator never compares the elements themselves, so elements with equal keys keep map iteration order"
+		}
+		if !hasElem {
+			return false, "the comparator never compares field " + strings.TrimPrefix(ek, "·.") + " of the elements, so elements that differ in it only keep map iteration order"
 		}
 	}
-	if !hasElem {
-		return false, "the comparator never compares the elements themselves, so elements with equal keys keep map iteration order"
-	}
 	return true, ""
+}
+
+// ---- struct values in the evaluator (slices of structs: decorate, sort, undecorate)
+//
+// A struct value assembled from modelled field cells carries the names (args) and values (tup) of
+// its fields.  Stored to an address it fills the field cells of that address; stored into a list
+// slot it stays one value (so that exchanging two slots exchanges the structs), and the address
+// list:ID:k.f reads / writes field f of the struct in slot k.
+
+func (v sv) structField(name string) (sv, bool) {
+	if v.k == svStruct && len(v.args) == len(v.tup) {
+		for i, n := range v.args {
+			if n.s == name {
+				return v.tup[i], true
+			}
+		}
+	}
+	return sv{}, false
+}
+
+// listSlot parses list:ID:k.f.
+func (e *ssaEval) listSlot(addr string) (slots []sv, k int, field string, ok bool) {
+	dot := strings.Index(addr, ".")
+	if !strings.HasPrefix(addr, "list:") || dot < 0 || strings.Contains(addr[dot+1:], ".") {
+		return nil, 0, "", false
+	}
+	parts := strings.Split(addr[:dot], ":")
+	if len(parts) != 3 {
+		return nil, 0, "", false
+	}
+	if _, err := fmt.Sscan(parts[2], &k); err != nil {
+		return nil, 0, "", false
+	}
+	slots = e.lists[parts[1]]
+	if k < 0 || k >= len(slots) {
+		return nil, 0, "", false
+	}
+	return slots, k, addr[dot+1:], true
+}
+
+func (e *ssaEval) listFieldLoad(addr string) (sv, bool) {
+	slots, k, f, ok := e.listSlot(addr)
+	if !ok {
+		return sv{}, false
+	}
+	return slots[k].structField(f)
+}
+
+func (e *ssaEval) structFieldStore(addr string, v sv) {
+	if slots, k, f, ok := e.listSlot(addr); ok {
+		old := slots[k]
+		st := sv{k: svStruct}
+		found := false
+		if old.k == svStruct && len(old.args) == len(old.tup) {
+			for i, n := range old.args {
+				val := old.tup[i]
+				if n.s == f {
+					val, found = v, true
+				}
+				st.args, st.tup = append(st.args, n), append(st.tup, val)
+			}
+		}
+		if !found {
+			st.args, st.tup = append(st.args, sv{k: svString, s: f}), append(st.tup, v)
+		}
+		var p []string
+		for i, n := range st.args {
+			p = append(p, n.s+":"+e.render(st.tup[i]))
+		}
+		sort.Strings(p)
+		st.s = "{" + strings.Join(p, ",") + "}"
+		slots[k] = st
+		return
+	}
+	if v.k == svStruct && len(v.args) == len(v.tup) && len(v.tup) > 0 && !strings.HasPrefix(addr, "list:") {
+		for i, n := range v.args {
+			if v.tup[i].known() {
+				e.mem[addr+"."+n.s] = v.tup[i]
+			}
+		}
+	}
 }
 
 // ---- the glyph list queries on small concrete models (C19 Q-LISTSOURCE, Q-ORDER, Q-NOTDEF)
@@ -1016,7 +1272,7 @@ func (r *modelRun) hooks() {
 
 // runModel evaluates query method fn on model m and returns its results.
 func (c *Ctx) runModel(fn *ssa.Function, m *glyphModel) ([]sv, *ssaEval) {
-	ev := &ssaEval{c: c, bind: map[ssa.Value]sv{}, mem: map[string]sv{}}
+	ev := &ssaEval{c: c, bind: map[ssa.Value]sv{}, mem: map[string]sv{}, makeLists: true}
 	r := &modelRun{c: c, ev: ev, m: m, maps: map[string]*modelMap{}, iter: map[string]int{}}
 	r.hooks()
 	// a glyph found in the map is not nil
